@@ -7,7 +7,7 @@
   `(a', b') = (a, b) + bit•β` with `bit•β ∈ {−β, O, β}`.
   No composer glue here, and no use of `JubjubGroupFacts`.
 -/
-import Plonk.Proofs.Edwards
+import Plonk.Proofs.EdwardsGroup
 import Plonk.Proofs.RowBridge
 
 namespace Plonk
@@ -168,5 +168,72 @@ theorem fixedComps_on_curve (ql qr a an b bn c d dn : Nat)
   rw [fixedComps_zero_iff] at hr
   rw [onCurve_iff] at hβ hacc ⊢
   exact fixedRowF_on_curve hβ (toF_fmul ql qr) hacc hr
+
+/-! ### Signed digits as integers -/
+
+/-- the selected point of an integer digit `e ∈ {−1,0,1}` is the signed multiple `e•β` -/
+theorem selF_intCast {e : ℤ} (he : e = 0 ∨ e = 1 ∨ e = -1) (β : PtF) :
+    selF (e : F) β = zsmulF e β := by
+  rcases he with h | h | h <;> subst h <;> simp
+
+/-- a field digit `bit ∈ {0,1,−1}` comes from exactly one integer digit -/
+theorem exists_unique_digit {bit : F} (hb : bit = 0 ∨ bit = 1 ∨ bit = -1) :
+    ∃! e : ℤ, (e = 0 ∨ e = 1 ∨ e = -1) ∧ (e : F) = bit := by
+  obtain ⟨h01, h0m, h1m⟩ := digits_distinct
+  rcases hb with h | h | h <;> subst h
+  · refine ⟨0, ⟨Or.inl rfl, by simp⟩, ?_⟩
+    rintro e ⟨he | he | he, hv⟩ <;> subst he
+    · rfl
+    · exact absurd (by simpa using hv.symm) h01
+    · exact absurd (by simpa using hv.symm) h0m
+  · refine ⟨1, ⟨Or.inr (Or.inl rfl), by simp⟩, ?_⟩
+    rintro e ⟨he | he | he, hv⟩ <;> subst he
+    · simp at hv
+    · rfl
+    · exact absurd (by simpa using hv.symm) h1m
+  · refine ⟨-1, ⟨Or.inr (Or.inr rfl), by simp⟩, ?_⟩
+    rintro e ⟨he | he | he, hv⟩ <;> subst he
+    · simp at hv
+    · exact absurd (by simpa using hv) h1m
+    · rfl
+
+/-! ### The host-side table of doublings `[2^i]G` (`Composer.doublings`) -/
+
+open Composer in
+theorem doublings_length (n : Nat) (p : Pt) : (doublings n p).length = n := by
+  induction n generalizing p with
+  | zero => rfl
+  | succ n ih => simp [doublings, ih]
+
+open Composer in
+/-- every table entry is on the curve (no hypothesis structure needed) -/
+theorem doublings_on_curve (n : Nat) (p : Pt) (hp : onCurve p = true) :
+    ∀ m ∈ doublings n p, onCurve m = true := by
+  induction n generalizing p with
+  | zero => intro m hm; simp [doublings] at hm
+  | succ n ih =>
+    intro m hm
+    simp only [doublings, List.mem_cons] at hm
+    rcases hm with rfl | hm
+    · exact hp
+    · exact ih _ (edAddOrId_on_curve p p hp hp) m hm
+
+open Composer in
+/-- entry `i` of the table is `[2^i]G` (under the group hypothesis: needs associativity) -/
+theorem doublings_getElem? (H : JubjubGroupFacts) (n : Nat) (p : Pt) (hp : onCurve p = true)
+    (i : Nat) (m : Pt) (h : (doublings n p)[i]? = some m) :
+    toFP m = smulF (2 ^ i) (toFP p) := by
+  induction n generalizing p i with
+  | zero => simp [doublings] at h
+  | succ n ih =>
+    cases i with
+    | zero =>
+      simp only [doublings, List.getElem?_cons_zero, Option.some.injEq] at h
+      subst h; simp
+    | succ i =>
+      simp only [doublings, List.getElem?_cons_succ] at h
+      have hP : OnCurveP (toFP p) := (onCurve_iff_P p).mp hp
+      rw [ih _ (edAddOrId_on_curve p p hp hp) i h, toFP_edAddOrId p p hp hp, ← smulF_two,
+        ← H.smulF_mul _ _ hP, pow_succ]
 
 end Plonk
